@@ -550,6 +550,7 @@ func c09Src(ns []cnode) string {
 // includes another template (the loop's bindings are a context like any other)
 func c09Fixed(cfg Config, res *Result) {
 	files := map[string]string{"row.tpl": "[{{ k }}{{ forloop.Counter }}]",
+		"lbase.tpl": "{% for j in l %}{% block row %}-{% endblock %}{% endfor %}|{% block solo %}{% endblock %}",
 		"inner.tpl": "{% for y in l %}{{ forloop.Parentloop.Counter }}{{ y }}{% endfor %}",
 		"lib.tpl":   "{% macro lm(xs) export %}{% for y in xs %}{% if forloop.Parentloop %}P{% else %}-{% endif %}{{ y }}{{ forloop.Counter }}{% endfor %}{% endmacro %}"}
 	const mm = "{% macro mm(xs) %}{% for y in xs %}{% if forloop.Parentloop %}P{{ forloop.Parentloop.Counter }}{% else %}-{% endif %}{{ y }}{% endfor %}{% endmacro %}"
@@ -583,6 +584,9 @@ func c09Fixed(cfg Config, res *Result) {
 		{"{% for f in floats %}{% if f %}T{% else %}F{% endif %}{% endfor %}", "TTFTTTT"},
 		{"{% if 0 %}A{% elif half %}B{% else %}C{% endif %}|{% firstof 0 half 7 %}|{% firstof 0.0 \"\" tiny %}", "B|0.500000|0.001000"},
 		{"{% if not half %}n{% else %}y{% endif %}{% if half and tiny %}y{% endif %}{% if 0.0 or tiny %}y{% endif %}", "yyy"},
+		// a loop written in a block of a child template runs inside the base template's loop: nesting is decided at execution
+		{`{% extends "lbase.tpl" %}{% block row %}{% for x in l %}{{ forloop.Parentloop.Counter }}.{{ forloop.Counter }}/{{ forloop.Parentloop.Revcounter0 }}{% if forloop.Parentloop.Last %}L{% endif %} {% endfor %}{% endblock %}`, "1.1/1 1.2/1 2.1/0L 2.2/0L |"},
+		{`{% extends "lbase.tpl" %}{% block solo %}{% for x in l %}{% if forloop.Parentloop %}P{% else %}-{% endif %}{% endfor %}{% endblock %}`, "--|--"},
 		// firstof picks the first true argument with autoescaping off as well
 		{"{% autoescape off %}{% firstof 0 half 7 %}|{% firstof nosuch \"\" 0 %}|{% firstof 0 \"\" \"x\" %}|{% firstof nl 0.0 tiny half %}{% endautoescape %}", "0.500000||x|0.001000"},
 		{"{% autoescape off %}{% for x in dup %}{% firstof 0 x %}{% endfor %}{% endautoescape %}", "11222"},
